@@ -43,8 +43,12 @@ def close(a, b, tol):
 # =====================================================================================
 # MeanVarianceNormalization.accumulate / store
 # =====================================================================================
-def replay_acc(ctx, rec, layout, dtype, split, full):
-    """one behaviour (data, ordered partition) through the module.  Returns False after a violation."""
+def replay_acc(ctx, rec, layout, dtype, split, full, eps=None):
+    """one behaviour (data, ordered partition) through the module.  Returns False after a violation.
+    eps: a module built with a LARGE floor for the standard deviation (the floor applies when normalising, max(std, eps);
+    the STORED statistics are the pooled ones whatever eps is) -- only store() is judged then"""
+    if eps is not None:
+        full = False
     from pydrobert.torch import functional as F, modules as M
 
     ndim, dim = layout
@@ -53,10 +57,10 @@ def replay_acc(ctx, rec, layout, dtype, split, full):
     site = "MeanVarianceNormalization"
 
     def case_of(what, got, **extra):
-        return dict(kind="acc", data=data, chunks=chunks, n=n, sum=rec["sum"], varnum=rec["varnum"],
+        return dict(kind="acc", data=data, chunks=chunks, n=n, sum=rec["sum"], varnum=rec["varnum"], eps=eps,
                     store_ok=rec["store_ok"], ndim=ndim, dim=dim, dtype=str(dtype), split=split, what=what, got=got, **extra)
 
-    mvn = M.MeanVarianceNormalization(dim)
+    mvn = M.MeanVarianceNormalization(dim) if eps is None else M.MeanVarianceNormalization(dim, eps=eps)
     try:
         for ch in chunks:
             mvn.accumulate(_fs.chunk_tensor([data[t - 1] for t in ch], ndim, dim, dtype, split))
@@ -670,6 +674,10 @@ def run(ctx):
         if ("acc", layout) in broken:
             continue
         good = replay_acc(ctx, rec, layout, dtype, split=j // 7, full=(j % 3 == 0) or not q)
+        if good and j % 2 == 1:
+            # the same behaviour through a module with a LARGE floor eps = 1/4 for the standard deviation (integer data
+            # has pooled deviations between 1/4 and 1/2): the stored statistics do not depend on eps
+            good = replay_acc(ctx, rec, layout, dtype, split=j // 7, full=False, eps=0.25)
         ctx.traces += 1
         if not good:
             broken.add(("acc", layout))  # one report per layout is enough; other layouts keep being explored
@@ -750,7 +758,7 @@ def replay(ctx, case):
     kind = case.get("kind")
     if kind == "acc":
         dtype = torch.double if "64" in case["dtype"] else torch.float
-        ok = replay_acc(ctx, case, (case["ndim"], case["dim"]), dtype, case["split"], True)
+        ok = replay_acc(ctx, case, (case["ndim"], case["dim"]), dtype, case["split"], True, eps=case.get("eps"))
         print("replay MeanVarianceNormalization: %s" % ("agrees with the spec" if ok and not ctx.violations else "differs"))
     elif kind == "cmd":
         opts = dict(case["opts"])
